@@ -15,7 +15,7 @@ func init() {
 	register(&Property{
 		ID:    "C02",
 		Level: "other",
-		Explanation: "Decided clauses: (R1) the three in-repo twin pairs IsValidHostnameLabel/ValidateHostnameLabel, isValidTLDLabel/ValidateTLDLabel and IsValidHostname/ValidateHostname have " +
+		Explanation: "Decided exactly by abstract evaluation into BDDs (no execution), on all inputs of bounded length: the label-level twins (IsValidHostnameLabel / ValidateHostnameLabel, isValidTLDLabel / ValidateTLDLabel) equal the same grammar; isValidIPv4String == the dotted-quad grammar of netip.ParseAddr; isIPv4Label, isUint16 and splitAddrPort equal their definitions. Further decided clauses (and the fall-back of the above): (R1) the three in-repo twin pairs IsValidHostnameLabel/ValidateHostnameLabel, isValidTLDLabel/ValidateTLDLabel and IsValidHostname/ValidateHostname have " +
 			"identical decision skeletons (ordered trees of canonical branch atoms over the parameters, error-returning helpers inlined, `err != nil` mapped to `!ok`, loops summarised), both " +
 			"sides taken from the current tree, so a check changed in one twin only (a dropped length test, > vs >=, a different rune class, the length test moved before ToASCII) is reported " +
 			"with the differing atom; (R2) the group-count arithmetic of the IPv6 scanner — an address has exactly 8 sixteen-bit groups, an embedded IPv4 tail counts as two, '::' stands for " +
@@ -24,7 +24,7 @@ func init() {
 			"IsValidIPString(host) on the split parts, and one iteration of isUint16's digit loop evaluated at the thresholds of its comparisons equals strconv.ParseUint(_, 10, 16). " +
 			"Not decided: full language equivalence of the IPv4/IPv6 character scanners behind IsValidIPString with netip.ParseAddr (two independently structured scanners; their " +
 			"panic-freedom and termination are C01).",
-		Technique: "decision-skeleton extraction and structural twin comparison on SSA; exhaustive evaluation of the group-count predicates over their finite domain",
+		Technique: "exact abstract evaluation of go/ssa into ROBDDs (label-level twins, IPv4 scanner, octet and port predicates, address:port splitter, compared with the reference grammar on all inputs of bounded length) + decision-skeleton twin comparison for the name-level twin; exhaustive evaluation of the IPv6 group-count predicates and of the length tests over their finite domains",
 		Note:      "Trusted: go/ssa, /verif/sa/skel. A behaviour-preserving but asymmetric rewrite of one twin's control flow is reported as 'cannot establish agreement'.",
 		DesignRef: "DESIGN.md section 4, C02",
 		Run:       runC02,
